@@ -20,6 +20,21 @@ CLAIMED = {
              "correspondence only. Print Assumptions: closed under the global context.",
         technique="Coq proof over translator-generated model + exhaustive boundary-grid correspondence",
         design="4 (C12)"),
+    "C06": dict(
+        text="Coq theorems (Properties/C06.v) that the model of FeatureDB.region (three-disjunct clause, argument "
+             "swap, Python truthiness of bounds, bin clause only for completely_within below 2^29 and < 900 bins) and "
+             "of make_query's featuretype/limit/strand clauses select exactly filter(overlaps|within) of the stored "
+             "rows, for all databases with consistent bins and all 1 <= start <= end incl. >= 2^29 (uses the C12 "
+             "overlap-soundness theorem to show the bin clause removes nothing); one-sided and seqid-omitted forms; "
+             "Feature form = tuple form. The model is tied to the code by running ~6k queries per quick run on "
+             "databases built by the real importer (three construction routes) whose stored tables are handed to Coq.",
+        note="Trusted: Coq kernel + vm_compute; the hand-written Model/Query.v is tied to interface.region / "
+             "helpers.make_query only by the correspondence (differential, boundary-pool generators); sqlite semantics "
+             "(NULL comparisons, affinity) are modelled. Domain: start<=end rows with both or neither coordinate, "
+             "non-empty featuretype collections, region() with at least one of seqid/start/end. String-form parsing "
+             "is modelled (split/int) and correspondence-checked, not proved equal to the tuple form.",
+        technique="Coq proof (model = declarative filter) + differential correspondence on real databases",
+        design="4 (C06)"),
 }
 
 PENDING_REASON = "machinery for this property is not built yet in this revision (planned, see DESIGN.md section 4/9); not claimed until its check exists"
